@@ -101,6 +101,7 @@ type Exec struct {
 	quiet    bool // setup phase: scheduling is deterministic (default choice) and offers no alternatives
 	aborter  *Thread
 	unmapped map[*byte]bool
+	unmappedLen map[uintptr]int
 }
 
 const epoch0 = int64(1_700_000_000) * 1e9
@@ -183,6 +184,9 @@ func (x *Exec) spawn(t *Thread) {
 		if x.aborting {
 			return
 		}
+		// an access to memory the code under test already unmapped (vrt.Munmap => PROT_NONE) becomes a recoverable
+		// panic of this thread, attributed to the schedule that caused it
+		debug.SetPanicOnFault(true)
 		normal := false
 		defer func() {
 			if normal {
@@ -193,7 +197,15 @@ func (x *Exec) spawn(t *Thread) {
 					return
 				}
 				if !x.aborting {
-					x.setFail(&Failure{Kind: "panic", Sig: "panic", Msg: fmt.Sprintf("panic in thread %d(%s): %v", t.ID, t.Name, r), Stack: trimStack(string(debug.Stack()))})
+					sig := "panic"
+					stack := trimStack(string(debug.Stack()))
+					if ae, ok := r.(interface{ Addr() uintptr }); ok {
+						if x.inUnmapped(ae.Addr()) {
+							// root cause: a thread touched memory the code under test had already unmapped
+							sig = "known:use-after-unmap@" + faultGroup(faultSite(stack))
+						}
+					}
+					x.setFail(&Failure{Kind: "panic", Sig: sig, Msg: fmt.Sprintf("panic in thread %d(%s): %v", t.ID, t.Name, r), Stack: stack})
 					x.beginAbort()
 				}
 			}
@@ -202,6 +214,54 @@ func (x *Exec) spawn(t *Thread) {
 		normal = true
 		x.exit(t)
 	}()
+}
+
+// faultSite names the innermost function of the code under test on a panic stack (after the panic frame).
+func faultSite(stack string) string {
+	lines := strings.Split(stack, "\n")
+	seenPanic := false
+	for _, l := range lines {
+		if strings.HasPrefix(l, "panic(") {
+			seenPanic = true
+			continue
+		}
+		if !seenPanic || strings.HasPrefix(l, "\t") || strings.Contains(l, "/internal/vrt.") || strings.HasPrefix(l, "runtime.") {
+			continue
+		}
+		fn := l
+		if i := strings.LastIndex(fn, "/"); i >= 0 {
+			fn = fn[i+1:]
+		}
+		if i := strings.Index(fn, "("); i > 0 && !strings.HasPrefix(fn[i:], "(*") {
+			fn = fn[:i]
+		} else if j := strings.LastIndex(fn, "("); j > 0 {
+			fn = fn[:j]
+		}
+		return strings.TrimPrefix(fn, "shmipc-go.")
+	}
+	return "?"
+}
+
+// faultGroup coarsens the faulting function to the shared structure it belongs to: the known finding is "a thread
+// is still inside an operation on the <queue | buffer> mapping when Session.Close's teardown unmaps it".
+func faultGroup(fn string) string {
+	l := strings.ToLower(fn)
+	switch {
+	case strings.Contains(l, "queue") || strings.Contains(l, "wakeuppeer"):
+		return "queue"
+	case strings.Contains(l, "buffer"):
+		return "buffer"
+	}
+	return fn
+}
+
+func (x *Exec) inUnmapped(a uintptr) bool {
+	for base, n := range x.unmappedLen {
+		if a >= base && a < base+uintptr(n) {
+			return true
+		}
+	}
+	return false
 }
 
 func trimStack(s string) string {
